@@ -4,13 +4,16 @@
  * pulled in by including dag_recorder.c -> dag_recorder_impl.h -> dag_recorder.h -> dag_recorder_inl.h):
  *   dr_end_interval_              leaf summary: t_1 == t_inf == end - start, one logical node of its kind, no edges
  *   dr_get_logical_node_counts    sum of the four interval counts (drives policy II)
- *   dr_accumulate_stats           (bounded, <= ACC_N subgraphs) totals of a closing section/task are THE function of the
- *                                 children's summaries that the property names; writes only s->info
+ *   dr_accumulate_stats           (bounded, <= ACC_N = 4 subgraphs) totals of a closing section/task are THE function of
+ *                                 the children's summaries that the property names; writes only s->info
  *   dr_collapse_subgraph          frame: assigns cur_node_count, the (emptied) subgraph list and the free list only
  *   dr_summarize_section_or_task  for EVERY setting of the contraction options the totals computed by accumulate are
  *                                 the totals left in the node (all policies go through collapse / prune)
- *   dr_free_dag                   (bounded) frame: only `next` of the freed descendants, the root's list, the free list
- *   dr_prune_nodes_norec          (bounded, <= 9 nodes) frame: only cur_node_count / collapse effects / its own stack
+ *   dr_free_dag                   (bounded, one concrete 10-node DAG) frame: only `next` of the freed descendants, the
+ *                                 root's list, the free list -- no summary of any node
+ *   dr_prune_nodes_norec          (bounded, same DAG, six concrete budget / worker-set scenarios) frame: only
+ *                                 cur_node_count, collapse effects and its own stack
+ * plus one arithmetic lemma (h_lemma_cp_le_work): the recurrence step of "critical path <= work", any list length.
  *
  * Paper step (not a machine step): (summary of a node is a function of its children's summaries only) + (no contraction
  * policy writes a summary) ==> by induction on the task tree the root totals equal those of the uncontracted DAG.
@@ -20,6 +23,12 @@
  * number of intervals by kind; number of edges by kind of the uncontracted DAG (as materialised by dr_dump.c
  * dr_pi_dag_enum_edges: create -> child, create -> next, last-of-section -> next, end-of-child -> after-wait,
  * other -> next).
+ *
+ * Finding on the pinned tree: dr_accumulate_stats does not count the other -> next (other_cont) edge, so the reported
+ * number of other-cont edges depends on contraction (obligation "accumulate: other_cont edges = ..." fails; native
+ * reproduction in the unit report).  Observation: logical_node_counts[s->info.kind] = 1 indexes a long[4] with 4 / 5
+ * (undefined behaviour; harmless in effect, and not an obligation for CBMC, which checks the bounds of the enclosing
+ * object only).
  */
 #include "verif_common.h"
 #include "dag_recorder.c"                       /* the real code */
